@@ -83,13 +83,17 @@ static void describe_threads(void) {
     *p = 0;
 }
 
+static int abnormal_exit_code = 0;
+void vs_set_abnormal_exit_code(int c) { abnormal_exit_code = c; }
+
 static void end_execution(int status) {
     describe_threads();
     SH->status = status;
-    _exit(0);
+    _exit(status == VS_QUIESCENT_OK ? 0 : abnormal_exit_code);
 }
 
 static int take_choice(int nopt, int altcost, int kind, const int* opts) {
+    if (SH->user[2]) return 0; /* default-schedule runs: nothing is recorded, always the default */
     int idx = SH->npoints;
     if (idx >= VS_MAXPOINTS) end_execution(VS_HORIZON);
     int c = 0;
